@@ -85,6 +85,7 @@ func runC13(c *Ctx) {
 	c.r138()
 	c.r139()
 	c.r1310()
+	c.r1311()
 }
 
 // R13.6: pooled / shared scratch objects do not escape.
@@ -1417,4 +1418,75 @@ func (c *Ctx) r1310() {
 			"the minifier writes into the registry it shares with every concurrent call ("+strings.Join(bad, "; ")+"): other calls read the changed value while this one runs, and the write races with them")
 	}
 	c.R.Floor(rule, "format packages examined", n, 6)
+}
+
+// R13.11: no minifier writes into the params map it was called with.
+func (c *Ctx) r1311() {
+	const rule = "R13.11"
+	c.R.Rule(rule, "the params map a minifier receives belongs to its caller: M.Match hands out the map it parsed, and a caller may pass one map to many (concurrent) calls of MinifyMimetype. In the format packages and the root package no function stores into, or deletes from, a parameter of type map[string]string (`params[\"nesting\"] = …` written into the caller's map carried the nesting level from call to call, and raced); a minifier that needs other parameters for an embedded call builds its own map")
+	n := 0
+	for _, rel := range append([]string{""}, formatPkgs...) {
+		pk := c.P.Pkg(rel)
+		if pk == nil {
+			continue
+		}
+		info := pk.TypesInfo
+		var bad []string
+		params := 0
+		for _, fd := range load.FuncDecls(pk) {
+			if fd.Body == nil || fd.Type.Params == nil {
+				continue
+			}
+			objs := map[types.Object]bool{}
+			for _, f := range fd.Type.Params.List {
+				if t := info.TypeOf(f.Type); t != nil && types.TypeString(t, nil) == "map[string]string" {
+					for _, nm := range f.Names {
+						if o := info.Defs[nm]; o != nil {
+							objs[o] = true
+							params++
+						}
+					}
+				}
+			}
+			if len(objs) == 0 {
+				continue
+			}
+			isParam := func(e ast.Expr) bool {
+				id, ok := ast.Unparen(e).(*ast.Ident)
+				return ok && objs[info.Uses[id]]
+			}
+			ast.Inspect(fd.Body, func(z ast.Node) bool {
+				switch v := z.(type) {
+				case *ast.AssignStmt:
+					for _, l := range v.Lhs {
+						if ie, ok := ast.Unparen(l).(*ast.IndexExpr); ok && isParam(ie.X) {
+							bad = append(bad, fmt.Sprintf("%s in %s at %s", str(l), load.FuncName(fd), c.pos(v)))
+						}
+					}
+				case *ast.IncDecStmt:
+					if ie, ok := ast.Unparen(v.X).(*ast.IndexExpr); ok && isParam(ie.X) {
+						bad = append(bad, fmt.Sprintf("%s in %s at %s", str(v.X), load.FuncName(fd), c.pos(v)))
+					}
+				case *ast.CallExpr:
+					if id, ok := v.Fun.(*ast.Ident); ok && (id.Name == "delete" || id.Name == "clear") && len(v.Args) >= 1 && isParam(v.Args[0]) {
+						if _, isBuiltin := info.Uses[id].(*types.Builtin); isBuiltin {
+							bad = append(bad, fmt.Sprintf("%s in %s at %s", str(v), load.FuncName(fd), c.pos(v)))
+						}
+					}
+				}
+				return true
+			})
+		}
+		if params == 0 {
+			continue
+		}
+		n++
+		name := rel
+		if rel == "" {
+			name = "minify"
+		}
+		c.R.Check(len(bad) == 0, rule, name+"/no store into a params map parameter", "-", fmt.Sprintf("%d map[string]string parameters, none is stored into", params),
+			"a function writes into the params map of its caller ("+strings.Join(bad, "; ")+"): the map M.Match returned, or one map passed to many calls, changes under the caller, concurrent calls race on it, and what was written (the nesting level) carries over to the next call")
+	}
+	c.R.Floor(rule, "packages with params parameters", n, 7)
 }
